@@ -7,12 +7,25 @@
 use std::{
     collections::HashMap,
     hash::{BuildHasher, Hash},
-    time::{Duration, Instant},
+    time::{Duration, Instant, SystemTime},
 };
 
 #[cfg(feature = "serde1")]
 #[cfg_attr(docsrs, doc(cfg(feature = "serde1")))]
 pub mod serde;
+
+/// The longest timeout that is armed for a request deadline. Deadlines further in the future are
+/// enforced as if they were this far away, which keeps them within the range of the timer.
+pub(crate) const MAX_TIMEOUT: Duration = Duration::from_secs(365 * 24 * 60 * 60);
+
+/// The furthest into the future a deadline is rendered as a wall-clock time. Keeps the timestamp
+/// representable (before the year 10000) whatever deadline a caller or peer chose.
+const MAX_RENDERED_TIMEOUT: Duration = Duration::from_secs(1000 * 365 * 24 * 60 * 60);
+
+/// The wall-clock time corresponding to `deadline`, for display purposes.
+pub(crate) fn deadline_as_system_time(deadline: &Instant) -> SystemTime {
+    SystemTime::now() + deadline.time_until().min(MAX_RENDERED_TIMEOUT)
+}
 
 /// Extension trait for [Instants](Instant) in the future, i.e. deadlines.
 pub trait TimeUntil {
